@@ -65,6 +65,15 @@ class RustSRPAnalyzer(RustBaseAnalyzer):
         for child in impl_node.children:
             if child.type == "type_identifier":
                 return self.extract_node_text(child)
+            if child.type == "generic_type":  # impl<T> Foo<T> {}
+                return self._generic_type_name(child)
+        return ""
+
+    def _generic_type_name(self, generic_type_node: Any) -> str:
+        """Extract "Foo" from the generic_type node of "Foo<T>"."""
+        for child in generic_type_node.children:
+            if child.type == "type_identifier":
+                return self.extract_node_text(child)
         return ""
 
     def count_impl_methods(self, impl_node: Any) -> int:
